@@ -10,7 +10,7 @@ use flac_codec::encode::{FlacByteWriter, FlacSampleWriter};
 use serde_json::{json, Value};
 use std::io::{Cursor, Write};
 
-pub const RULE: &str = "write histories: (A) ALL compositions of an 18-unit (thorough 21) mono 8-bit input into write calls for the byte, sample and channel writers; (B,C) all histories with ≤2 (thorough ≤3 on B) cut points, plus a zero-length call at every position, on stereo 16-bit (17 PCM frames), 3-channel 24-bit (33 PCM frames), mono 12-bit (40) inputs, inputs that are exact multiples of the block size (stereo 16-bit 32 PCM frames, mono 8-bit 16, mono 32-bit 48) and ≤3 cuts on a mono 16-bit input of 70 PCM frames (4 blocks + remainder; byte writers ≤2 cuts) in the writer's native unit (bytes: cuts fall mid-sample and mid-PCM-frame); (D) trailing partial PCM frames of every possible length after 0, 5, 16 and 17 whole frames; × {byte LE, byte BE, sample, channel} × declared/undeclared × two option sets × history mode {plain; io::Write::flush after every write call (byte writers); writer dropped instead of finalized (≤1-cut histories)}; oracle = byte identity with the single-call sample-writer file; reference-file hashes are compared across the 16 worker processes (run-to-run determinism)";
+pub const RULE: &str = "write histories: (A) ALL compositions of an 18-unit (thorough 21) mono 8-bit input into write calls for the byte, sample and channel writers; (B,C) all histories with ≤2 (thorough ≤3 on B) cut points, plus a zero-length call at every position, on stereo 16-bit (17 PCM frames), 3-channel 24-bit (33 PCM frames), mono 12-bit (40) inputs, inputs that are exact multiples of the block size (stereo 16-bit 32 PCM frames, mono 8-bit 16, mono 32-bit 48) and ≤3 cuts on a mono 16-bit input of 70 PCM frames (4 blocks + remainder; byte writers ≤2 cuts) in the writer's native unit (bytes: cuts fall mid-sample and mid-PCM-frame); (D) trailing partial PCM frames of every possible length after 0, 5, 16 and 17 whole frames; × {byte LE, byte BE, sample, channel} × declared/undeclared × two option sets × history mode {plain; io::Write::flush after every write call (byte writers); writer dropped instead of finalized (≤1-cut histories)}; oracle = byte identity with the single-call sample-writer file; plus the path-based `create` constructors with overwrite() over an absent / shorter / much longer existing file (3 signal formats × 4 writers × declared/undeclared), compared with the in-memory file; reference-file hashes are compared across the 16 worker processes (run-to-run determinism)";
 pub const ASSUMPTIONS: &[&str] = &["PCM content is the fixed position-identifying signal; histories, not sample values, are the explored dimension here (values: C01)"];
 pub fn bounds(quick: bool) -> Value {
     json!({"compositions_n": if quick {18} else {21}, "max_cuts_B": if quick {2} else {3}, "max_cuts_C": 2, "partial_lengths": "all 1..w*ch-1 bytes / 1..ch-1 samples"})
@@ -124,7 +124,61 @@ fn partial_case(w: WriterKind, opt: &Opt, sig: &Sig, whole: &[i32], extra: usize
     }
 }
 
+
+/// The path-based constructors (`create`, with `Options::overwrite()`) writing over an existing, longer file: the finished
+/// file on disk must be the same bytes as the in-memory encode of the same PCM and options.
+fn disk_case(w: WriterKind, opt: &Opt, sig: &Sig, pcm: &[i32], existing: usize) -> Result<Vec<u8>, String> {
+    use flac_codec::encode::FlacChannelWriter;
+    let options = opt.to_options()?.overwrite();
+    let dir = std::path::Path::new("/verif/target/tmp").join(format!("c08-path-{}", std::process::id()));
+    std::fs::create_dir_all(&dir).map_err(|e| format!("machinery:{e}"))?;
+    let path = dir.join("out.flac");
+    std::fs::write(&path, vec![0xA5u8; existing]).map_err(|e| format!("machinery:{e}"))?;
+    let p2 = path.clone();
+    let r = crate::core::guarded(move || -> Result<(), String> {
+        let e = |x: flac_codec::Error| format!("err:{x:?}");
+        let ioe = |x: std::io::Error| format!("err:io:{:?}:{}", x.kind(), x);
+        let ch = sig.ch as usize;
+        match w {
+            WriterKind::Sample => {
+                let mut wr = FlacSampleWriter::create(&p2, options, sig.rate, sig.bps, sig.ch, opt.declared.then_some(pcm.len() as u64)).map_err(e)?;
+                wr.write(pcm).map_err(e)?;
+                wr.finalize().map_err(e)?;
+            }
+            WriterKind::ByteLE | WriterKind::ByteBE => {
+                let big = w == WriterKind::ByteBE;
+                let bytes = pcm_bytes(pcm, sig.bps, big);
+                let total = opt.declared.then_some(bytes.len() as u64);
+                if big {
+                    let mut wr: FlacByteWriter<_, BigEndian> = FlacByteWriter::create(&p2, options, sig.rate, sig.bps, sig.ch, total).map_err(e)?;
+                    wr.write_all(&bytes).map_err(ioe)?;
+                    wr.finalize().map_err(e)?;
+                } else {
+                    let mut wr: FlacByteWriter<_, LittleEndian> = FlacByteWriter::create(&p2, options, sig.rate, sig.bps, sig.ch, total).map_err(e)?;
+                    wr.write_all(&bytes).map_err(ioe)?;
+                    wr.finalize().map_err(e)?;
+                }
+            }
+            WriterKind::Channel => {
+                let chans = crate::codec::deinterleave(pcm, ch);
+                let mut wr = FlacChannelWriter::create(&p2, options, sig.rate, sig.bps, sig.ch, opt.declared.then_some((pcm.len() / ch) as u64)).map_err(e)?;
+                wr.write(chans.iter().map(|c| &c[..]).collect::<Vec<_>>()).map_err(e)?;
+                wr.finalize().map_err(e)?;
+            }
+        }
+        Ok(())
+    });
+    let data = std::fs::read(&path).map_err(|e| format!("machinery:{e}"));
+    let _ = std::fs::remove_dir_all(&dir);
+    match r {
+        Ok(Ok(())) => data,
+        Ok(Err(e)) => Err(e),
+        Err(p) => Err(format!("panic:{p}")),
+    }
+}
+
 pub fn run(ctx: &Ctx, acc: &mut Acc) {
+    disk(ctx, acc);
     let q = ctx.quick;
     // ---------- (A) all compositions
     let n = if q { 18 } else { 21 };
@@ -239,6 +293,47 @@ pub fn run(ctx: &Ctx, acc: &mut Acc) {
     }
 }
 
+fn disk(ctx: &Ctx, acc: &mut Acc) {
+    for sig in [Sig { rate: 44100, bps: 16, ch: 2 }, Sig { rate: 8000, bps: 8, ch: 1 }, Sig { rate: 96000, bps: 24, ch: 3 }] {
+        let pcm = ident_pcm(sig.ch, sig.bps, 40);
+        for declared in [true, false] {
+            let opt = Opt { declared, ..Opt::base16() };
+            let reference = encode(WriterKind::Sample, &opt, &sig, &pcm);
+            for w in crate::codec::WRITERS {
+                for existing in [0usize, 10, 100_000] {
+                    if !ctx.mine() {
+                        continue;
+                    }
+                    acc.states += 1;
+                    acc.executions += 1;
+                    acc.transitions += 3;
+                    let got = disk_case(w, &opt, &sig, &pcm, existing);
+                    if let Err(e) = &got {
+                        if e.starts_with("machinery:") {
+                            acc.notes.push(format!("machinery: C08 on-disk case: {e}"));
+                            continue;
+                        }
+                    }
+                    let same = match (&got, &reference) {
+                        (Ok(a), Ok(b)) => a == b,
+                        (Err(a), Err(b)) => err_class(a) == err_class(b),
+                        _ => false,
+                    };
+                    acc.outcome(format!("disk:{w:?}:existing{existing}:{}", if same { "same" } else { "DIFF" }));
+                    if !same {
+                        let clause = match &got {
+                            Err(e) if e.starts_with("panic:") => err_class(e),
+                            Err(e) => format!("fails-{}", err_class(e)),
+                            Ok(_) => "different-bytes".into(),
+                        };
+                        acc.violation(format!("C08|{w:?}|on-disk|{clause}"), format!("{w:?}::create + overwrite() over an existing file of {existing} bytes ({}ch/{}bit): {} vs the in-memory file {}", sig.ch, sig.bps, brief(&got), brief(&reference)), json!({"kind":"write-disk","writer":format!("{w:?}"),"opt":opt.to_json(),"rate":sig.rate,"bps":sig.bps,"ch":sig.ch,"pcm":pcm,"existing":existing}));
+                    }
+                }
+            }
+        }
+    }
+}
+
 /// parent-side: the same reference file must hash identically in every worker process
 pub fn post_merge(acc: &mut Acc) {
     let mut seen: std::collections::BTreeMap<String, String> = Default::default();
@@ -269,6 +364,17 @@ pub fn replay(v: &Value) -> Option<(bool, String)> {
                 _ => false,
             };
             Some((!same, format!("split {cuts:?}: {} ; single call: {}", brief(&got), brief(&reference))))
+        }
+        "write-disk" => {
+            let pcm = crate::core::ivec(&v["pcm"]);
+            let reference = encode(WriterKind::Sample, &opt, &sig, &pcm);
+            let got = disk_case(w, &opt, &sig, &pcm, v["existing"].as_u64()? as usize);
+            let same = match (&got, &reference) {
+                (Ok(a), Ok(b)) => a == b,
+                (Err(a), Err(b)) => err_class(a) == err_class(b),
+                _ => false,
+            };
+            Some((!same, format!("on disk: {} ; in memory: {}", brief(&got), brief(&reference))))
         }
         "write-partial" => {
             let whole = ident_pcm(sig.ch, sig.bps, v["whole_frames"].as_u64()? as usize);
